@@ -32,7 +32,7 @@ var (
 	c04Hosts    = []string{"a.com", "x.a.com", "*.a.com", "*.x.a.com", "com", "localhost", "", "[::1]", "[2001:db8::1]", "10.1.2.3"}
 	c04Prefixes = []string{"/", "/api", "/apiary", "/api/v1", "/a", "/a/b"}
 	c04ReqHosts = []string{"a.com", "a.com:80", "a.com:8443", "x.a.com", "y.a.com", "z.x.a.com", "z.x.a.com:80", "q.z.x.a.com", "com", "com:80", "localhost", "localhost:3000",
-		"b.com", "other", ".a.com", "a.com.", "[::1]", "[::1]:80", "[::1]:8443", "[2001:db8::1]", "[2001:db8::1]:80", "[2001:db8::2]", "[::2]:80", "10.1.2.3", "10.1.2.3:80", "xa.com", "a.comx"}
+		"b.com", "other", ".a.com", "a.com.", "[::1]", "[::1]:80", "[::1]:8443", "[2001:db8::1]", "[2001:db8::1]:80", "[2001:db8::2]", "[::2]:80", "10.1.2.3", "10.1.2.3:80", "xa.com", "a.comx", "drop.example"}
 	c04ReqPaths = []string{"/", "/api", "/api/", "/apix", "/api/x", "/apiary", "/apiary/", "/apiary/x", "/api/v1", "/api/v1/", "/api/v1x", "/api/v1/x", "/api/v2",
 		"/a", "/a/", "/ab", "/a/b", "/a/bc", "/a/b/c", "/a//b", "//", "//api", "/api//v1", "/x", "/x/api", "/API"}
 )
@@ -247,18 +247,51 @@ func c04Run(t *testing.T, run *Run, sc c04Scenario, rng *rand.Rand) {
 			// second build: "ghost" services are deployed on hosts of the pool (bound or not in the
 			// final table) and removed again, some before and some after the real deploys: the final
 			// set of services is the same, so routing must be too
-			// second build: unjudged traffic for every host of the pool between the commands, so that
-			// anything the proxy remembers per request (a cache of earlier routing decisions, say)
-			// has been filled under every intermediate table before the final one is probed
+			// second build: traffic for every host of the pool after each command, judged against the
+			// statement applied to the services installed at that moment. It also fills anything the
+			// proxy remembers per request (a cache of earlier routing decisions, say) under every
+			// intermediate table before the final one is probed.
 			nwarm := 0
+			cur := map[string]c04Service{} // second build: the services installed right now
+			norm := func(hosts, pfx []string) ([]string, []string) {
+				var ps []string
+				for _, p := range pfx {
+					ps = append(ps, "/"+strings.Trim(p, "/"))
+				}
+				return hosts, ps
+			}
+			installed := func(name string, hosts, pfx []string) {
+				h, p := norm(hosts, pfx)
+				cur[name] = c04Service{Name: name, Hosts: h, Prefixes: p}
+			}
 			warm := func() {
-				if b != 1 {
+				if b != 1 || bad {
 					return
 				}
+				var now []c04Service
+				for _, sv := range cur {
+					now = append(now, sv)
+				}
 				for _, h := range c04ReqHosts {
-					for _, p := range []string{"/", "/api/v1/x", "/a/b"} {
+					for _, p := range []string{"/", "/api/v1/x", "/a/b", "/x", "/api"} {
 						nwarm++
-						w.Do(Req{ID: fmt.Sprintf("warm%d", nwarm), Host: h, Path: p})
+						r := w.Do(Req{ID: fmt.Sprintf("warm%d", nwarm), Host: h, Path: p})
+						got := fmt.Sprintf("!status=%d target=%s err=%s", r.Status, r.Target, r.Err)
+						if r.Status == 200 && strings.HasPrefix(r.Target, "svc-") {
+							got = strings.TrimSuffix(strings.TrimPrefix(r.Target, "svc-"), ":80")
+						} else if r.Status == 404 {
+							got = ""
+						}
+						if want := refRoute(now, h, p); got != want {
+							names := []string{}
+							for n := range cur {
+								names = append(names, n)
+							}
+							sort.Strings(names)
+							run.Violate("route-mismatch:between-commands", fmt.Sprintf("after %d commands of the second build (installed: %v): Host %q path %q was answered by %q, the statement selects %q", len(w.Cmds), names, h, p, got, want), sc, func() []string { return w.Trace(60) })
+							bad = true
+							return
+						}
 					}
 				}
 			}
@@ -276,6 +309,7 @@ func c04Run(t *testing.T, run *Run, sc c04Scenario, rng *rand.Rand) {
 				w.AddTarget("svc-"+name+":80", nil)
 				if c04Deploy(w, g, g.Hosts, g.Prefixes) == "" {
 					ghosts = append(ghosts, name)
+					installed(name, g.Hosts, g.Prefixes)
 				}
 				warm()
 			}
@@ -285,24 +319,53 @@ func c04Run(t *testing.T, run *Run, sc c04Scenario, rng *rand.Rand) {
 				}
 				if len(ghosts) > 0 && rng.IntN(2) == 0 {
 					w.Remove(ghosts[0])
+					delete(cur, ghosts[0])
 					ghosts = ghosts[1:]
 					warm()
 				}
 			}
+			// second build: one service is first deployed with an extra host, another with an extra
+			// path prefix, that its final deploy gives up again (a redeploy to a strict subset)
+			extraHost, extraPfx := -1, -1
+			if b == 1 {
+				for _, i := range rng.Perm(len(sc.Services)) {
+					if sv := sc.Services[i]; sv.Hosts[0] != "" && extraHost < 0 && rng.IntN(2) == 0 {
+						extraHost = i
+					} else if extraPfx < 0 && rng.IntN(2) == 0 {
+						extraPfx = i
+					}
+				}
+			}
 			for _, i := range rng.Perm(len(sc.Services)) {
 				s := sc.Services[i]
-				if b == 1 && rng.IntN(2) == 0 {
+				if i == extraHost || i == extraPfx {
+					hosts, pfx := append([]string{}, s.Hosts...), append([]string{}, s.RawPfx...)
+					if i == extraHost {
+						hosts = append(hosts, "drop.example")
+					} else {
+						pfx = append(pfx, "/x")
+					}
+					if e := c04Deploy(w, s, hosts, pfx); e != "" {
+						fail(w, "deploy-failed", "deploy of %s with an extra binding (hosts %v prefixes %v) failed: %s", s.Name, hosts, pfx, e)
+						bad = true
+					}
+					installed(s.Name, hosts, pfx)
+					warm()
+				} else if b == 1 && rng.IntN(2) == 0 {
 					// first somewhere else, then moved onto its final bindings
-					if e := c04Deploy(w, s, []string{fmt.Sprintf("tmp%d.example", i)}, []string{pick(rng, c04Prefixes)}); e != "" {
+					tmpHosts, tmpPfx := []string{fmt.Sprintf("tmp%d.example", i)}, []string{pick(rng, c04Prefixes)}
+					if e := c04Deploy(w, s, tmpHosts, tmpPfx); e != "" {
 						fail(w, "deploy-failed", "temporary deploy of %s failed: %s", s.Name, e)
 						bad = true
 					}
+					installed(s.Name, tmpHosts, tmpPfx)
 					warm()
 				}
 				if e := c04Deploy(w, s, s.Hosts, s.RawPfx); e != "" {
 					fail(w, "deploy-failed", "deploy of %s (hosts %v prefixes %v) failed: %s", s.Name, s.Hosts, s.RawPfx, e)
 					bad = true
 				}
+				installed(s.Name, s.Hosts, s.RawPfx)
 				warm()
 			}
 			if b == 1 {
@@ -314,9 +377,10 @@ func c04Run(t *testing.T, run *Run, sc c04Scenario, rng *rand.Rand) {
 						fail(w, "remove-failed", "remove of %s failed: %s", g, c.Err)
 						bad = true
 					}
+					delete(cur, g)
 					warm()
 				}
-				run.Count("unjudged_requests_between_commands", nwarm)
+				run.Count("requests_judged_between_commands", nwarm)
 			}
 			if b == 0 {
 				stateDir = w.CopyState()
